@@ -149,7 +149,7 @@ EXCLUDED = ["lib/efuns/edit_source.c"]
 # lib/efuns/*.c that are not in efuns_SOURCES of lib/efuns/CMakeLists.txt: func_spec.c is
 # LPC-prototype input for `cc -E | edit_source`, it is not C and is never compiled.
 NOT_BUILT = ["lib/efuns/func_spec.c"]
-EXTRA_FILES = ["lib/lpc/object.c", "src/simulate.c", "lib/lpc/lex.c", "lib/lpc/program/binaries.c"]
+EXTRA_FILES = ["lib/lpc/otable.c", "lib/lpc/object.c", "src/simulate.c", "lib/lpc/lex.c", "lib/lpc/program/binaries.c"]
 
 MAX_DEPTH = 6
 MAX_CALL_DEPTH = 4
@@ -208,7 +208,9 @@ GUARDED_GLOBALS = ("inc_list",)
 COPY_CALLS = ("make_shared_string", "string_copy", "alloc_cstring", "xstrdup")
 STATIC_FILES = ("lib/efuns/file_utils.c", "lib/efuns/file.c", "lib/efuns/ed.c", "lib/lpc/program/binaries.c",
                 "lib/lpc/lex.c", "lib/lpc/preprocess.c", "lib/lpc/object.c", "lib/efuns/dumpstat.c", "lib/efuns/dump_prog.c")
-LITERAL_FNS = ("legal_path", "check_valid_path", "inc_lexically_normal", "inc_open", "match_string")
+# functions whose integer literals belong to the fingerprint too (strip_name: `p - dest > 2`)
+INT_LITERAL_FNS = ("strip_name",)
+LITERAL_FNS = ("strip_name", "legal_path", "check_valid_path", "inc_lexically_normal", "inc_open", "match_string")
 
 
 class SitesError(Exception):
@@ -1063,6 +1065,11 @@ def _analyze_file(job):
             for x in fn.nodes:
                 if x["kind"] == "CharacterLiteral":
                     lits.append((fn.bpos(x), "c%d" % int(x.get("value", 0))))
+                elif x["kind"] == "IntegerLiteral" and fn.name in INT_LITERAL_FNS:
+                    b = (x.get("range") or {}).get("begin") or {}
+                    if "spellingLoc" in b or "expansionLoc" in b:
+                        continue
+                    lits.append((fn.bpos(x), "i" + str(x.get("value", ""))))
                 elif x["kind"] == "StringLiteral" and len(str(x.get("value", ""))) <= 6:
                     # short strings only (the search pattern "/."); trace / error message texts are not logic,
                     # nor are strings that come out of a macro body (the "WARN" tag of debug_warn ...)
